@@ -220,13 +220,61 @@ def renderings(d):
     return out
 
 
-def documents_check(chk, want_identity, n=None):
+def part_models(d):
+    """the four package parts as the MODEL assembles them: (name, wrapper description with the children the code selects)"""
+    from odf import office
+    def wrap(factory, kids):
+        w = X.walk(factory())
+        return ('E', w[1], w[2], w[3], kids)
+    def autostyles(used, long_form):
+        kids = [X.walk(s) for s in used]
+        if not kids and long_form:
+            kids = [('T', u'')]          # stylesxml() writes open and close tag even without styles: <a></a>
+        w = X.walk(office.AutomaticStyles())
+        return ('E', w[1], w[2], w[3], kids)
+    out = []
+    kids = []
+    if d.scripts.hasChildNodes(): kids.append(X.walk(d.scripts))
+    if d.fontfacedecls.hasChildNodes(): kids.append(X.walk(d.fontfacedecls))
+    kids.append(autostyles(d._used_auto_styles([d.styles, d.automaticstyles, d.body]), False))
+    kids.append(X.walk(d.body))
+    out.append(('contentxml()', wrap(office.DocumentContent, kids)))
+    kids = []
+    if d.fontfacedecls.hasChildNodes(): kids.append(X.walk(d.fontfacedecls))
+    kids.append(X.walk(d.styles))
+    kids.append(autostyles(d._used_auto_styles([d.masterstyles]), True))
+    if d.masterstyles.hasChildNodes(): kids.append(X.walk(d.masterstyles))
+    out.append(('stylesxml()', wrap(office.DocumentStyles, kids)))
+    out.append(('metaxml()', wrap(office.DocumentMeta, [X.walk(d.meta)])))
+    out.append(('settingsxml()', wrap(office.DocumentSettings, [X.walk(d.settings)])))
+    return out
+
+
+def documents_check(chk, want_identity, n=None, drv=None):
     n = n or (40 if chk.tier == 'quick' else 400)
     for i in range(n):
         try:
             d = rand_document(chk.rng)
         except Exception as e:   # generator problem, not a property matter
             chk.notes.append('document generator: %r' % (e,)); continue
+        if drv is not None:
+            # part assembly: the bytes of the four parts vs the model's renderPart on the children the code selects
+            try:
+                part_models(d)                     # creates the wrapper elements once, so their namespaces are registered
+                real = {}; tbls = {}
+                for name, f in (('contentxml()', d.contentxml), ('stylesxml()', d.stylesxml), ('metaxml()', d.metaxml), ('settingsxml()', d.settingsxml)):
+                    real[name] = f(); tbls[name] = X.ns_table()      # the table as it was when the part was written
+                models = part_models(d)
+                ans = drv.batch('renderpart ' + X.wire_table(tbls[name]) + ' ' + X.wire_tree(w) for name, w in models)
+                for (name, w), a in zip(models, ans):
+                    r = real[name]
+                    r = r.decode('utf-8') if isinstance(r, bytes) else r
+                    chk.corr(); chk.count('part_assembly')
+                    if a != 'ok ' + enc_str(r):
+                        chk.corr_diff({'doc': i, 'seed': chk.seed, 'part': name}, r[:400], dec_str(a[3:])[:400] if a.startswith('ok ') else a,
+                                      'bytes of %s vs renderPart on the children the code selects' % name)
+            except UnicodeEncodeError:
+                pass   # reported below as not-encodable
         try:
             rs = renderings(d)
         except UnicodeEncodeError as e:
